@@ -217,7 +217,7 @@ func ClassifierCases(tier string, seed uint64, statusLits []int) ([]ErrCase, err
 	}
 	// pairs and triples in both orders: which handler wins is decided by the handler order, not by the order of wrapping
 	r := rng.New(seed)
-	nPairs := 400
+	nPairs := 150
 	if tier == "thorough" {
 		nPairs = 4000
 	}
